@@ -4,8 +4,12 @@ import (
 	"encoding/json"
 	"flag"
 	"fmt"
+	"go/ast"
+	"go/parser"
+	"go/types"
 	"os"
 	"path/filepath"
+	"regexp"
 	"sort"
 	"strconv"
 	"strings"
@@ -60,14 +64,15 @@ func hasProp(o *Oblig, p string) bool {
 }
 
 type Baseline struct {
-	Property string   `json:"property"`
-	Commit   string   `json:"repo_commit"`
-	Claimed  []string `json:"claimed"`  // obligations that discharge on the pinned tree
-	Unproved []string `json:"unproved"` // obligations that do not (limits of the contracts, or known findings)
-	Functions []string `json:"functions"`
-	BindErrors []string `json:"bind_errors,omitempty"` // contract clauses that do not bind on the pinned tree (none expected)
-	LoopShape  map[string]int `json:"loop_shape,omitempty"` // functions whose contract has loop clauses -> number of loops
-	AllFunctions []string `json:"all_functions,omitempty"` // every function of the hcl-lang packages on the pinned tree
+	Property     string         `json:"property"`
+	Commit       string         `json:"repo_commit"`
+	Claimed      []string       `json:"claimed"`  // obligations that discharge on the pinned tree
+	Unproved     []string       `json:"unproved"` // obligations that do not (limits of the contracts, or known findings)
+	Functions    []string       `json:"functions"`
+	BindErrors   []string       `json:"bind_errors,omitempty"`   // contract clauses that do not bind on the pinned tree (none expected)
+	LoopShape    map[string]int `json:"loop_shape,omitempty"`    // functions whose contract has loop clauses -> number of loops
+	AllFunctions []string       `json:"all_functions,omitempty"` // every function of the hcl-lang packages on the pinned tree
+	BoolGhosts   []string       `json:"bool_ghosts,omitempty"`   // "<function>|<ghost>": ghosts of Boolean sort on the pinned tree
 }
 
 type Finding struct {
@@ -88,11 +93,11 @@ type KnownFindings struct {
 }
 
 type obRec struct {
-	Name    string `json:"name"`
-	Verdict string `json:"verdict"`
-	Solver  string `json:"solver"`
-	Ms      int    `json:"ms"`
-	SmtBytes int   `json:"smt_bytes,omitempty"`
+	Name     string `json:"name"`
+	Verdict  string `json:"verdict"`
+	Solver   string `json:"solver"`
+	Ms       int    `json:"ms"`
+	SmtBytes int    `json:"smt_bytes,omitempty"`
 }
 
 func readJSON(path string, v interface{}) error {
@@ -138,6 +143,17 @@ func checkCmd(args []string) int {
 		return 0
 	}
 	spec := loadSpecs(w, filepath.Join(root, "trusted"))
+	{
+		// ghosts that are Boolean on the pinned tree ("the check call returned true"): if their call site
+		// disappears they are false, like the plain "was this call reached" ghosts
+		var b0 Baseline
+		if readJSON(filepath.Join(root, "baseline", *prop+".json"), &b0) == nil {
+			spec.boolGhosts = map[string]bool{}
+			for _, g := range b0.BoolGhosts {
+				spec.boolGhosts[g] = true
+			}
+		}
+	}
 	opt := solveOpts{quickMs: 6000, retryMs: 10000, portfolio: true}
 	if *tier == "thorough" {
 		opt = solveOpts{quickMs: 20000, retryMs: 60000, portfolio: true, crossCheck: true}
@@ -146,6 +162,20 @@ func checkCmd(args []string) int {
 		// the claimed set is recorded under a fifth of the quick time limits: only obligations that discharge
 		// with that much margin are claimed, so that a loaded machine does not turn a proof into an alarm
 		opt = solveOpts{quickMs: 1200, retryMs: 2000, portfolio: true}
+	}
+	if !*writeBase && *tier != "thorough" {
+		// obligations that were not discharged on the pinned tree are not claimed: one solver attempt
+		// (they may be discharged now - see "rescued" - but they are not worth the portfolio)
+		var b0 Baseline
+		if readJSON(filepath.Join(root, "baseline", *prop+".json"), &b0) == nil {
+			opt.knownUnproved = map[string]bool{}
+			for _, n := range b0.Unproved {
+				opt.knownUnproved[n] = true
+			}
+		}
+	}
+	if !*writeBase && *tier != "thorough" {
+		opt.prop = *prop
 	}
 	fns := relevantFuncs(w, spec, *prop)
 	anchorFns := anchorFunctions(w, root, *prop)
@@ -160,9 +190,45 @@ func checkCmd(args []string) int {
 			}
 		}
 	}
+	frameFns := frameDeps(w, spec, *prop, anchorFns)
+	{
+		have := map[*ssa.Function]bool{}
+		for _, f := range fns {
+			have[f] = true
+		}
+		for _, f := range w.funcs {
+			if frameFns[shortName(f)] && !have[f] {
+				fns = append(fns, f)
+			}
+		}
+	}
+	copyFns := copyDeps(w, spec, *prop, anchorFns)
+	{
+		have := map[*ssa.Function]bool{}
+		for _, f := range fns {
+			have[f] = true
+		}
+		for _, f := range w.funcs {
+			if copyFns[shortName(f)] && !have[f] {
+				fns = append(fns, f)
+			}
+		}
+	}
+	if !*writeBase && *tier != "thorough" {
+		pr := *prop
+		opt.relevant = func(o *Oblig) bool {
+			if hasProp(o, pr) {
+				return true
+			}
+			if (o.Family == "SAFE" || o.Family == "FRAME" || o.Family == "COPY" || (o.Family == "PRE" && len(o.tags) == 0)) && anchorFns[o.Fn] {
+				return true
+			}
+			return (o.Family == "COPY" && copyFns[o.Fn]) || (o.Family == "FRAME" && frameFns[o.Fn])
+		}
+	}
 	res := verifyAll(w, spec, fns, opt, 16, nil)
 	extra := extraObligations(w, spec, *prop, opt)
-	run := &checkRun{prop: *prop, tier: *tier, seed: seed, root: root, w: w, spec: spec, res: res, extra: extra, t0: t0, noReplay: *noReplay, anchorFns: anchorFns}
+	run := &checkRun{prop: *prop, tier: *tier, seed: seed, root: root, w: w, spec: spec, res: res, extra: extra, t0: t0, noReplay: *noReplay, anchorFns: anchorFns, copyFns: copyFns, frameFns: frameFns}
 	if *writeBase {
 		return run.writeBaseline()
 	}
@@ -171,22 +237,24 @@ func checkCmd(args []string) int {
 
 type checkRun struct {
 	prop, tier, root string
-	seed  int
-	w     *World
-	spec  *Specs
-	res   []*funcResult
-	extra []*extraResult
-	t0    time.Time
-	noReplay bool
-	anchorFns map[string]bool
-	canary   []canaryResult
-	harness  []harnessResult
+	seed             int
+	w                *World
+	spec             *Specs
+	res              []*funcResult
+	extra            []*extraResult
+	t0               time.Time
+	noReplay         bool
+	anchorFns        map[string]bool
+	copyFns          map[string]bool
+	frameFns         map[string]bool
+	canary           []canaryResult
+	harness          []harnessResult
 }
 
 // extraResult: obligations that do not come from one function's body (COPY field tables, NONDET sites, lemmas).
 type extraResult struct {
-	obs []*Oblig
-	enc *Enc
+	obs   []*Oblig
+	enc   *Enc
 	notes []string
 }
 
@@ -207,6 +275,18 @@ func (r *checkRun) collect() (obs []*Oblig, encOf map[*Oblig]*Enc, fnSeen map[st
 			// FRAME obligations of the functions defined in the files a property is anchored in are part of
 			// that property's check
 			anchored := (o.Family == "SAFE" || o.Family == "FRAME" || o.Family == "COPY" || (o.Family == "PRE" && len(o.tags) == 0)) && r.anchorFns[o.Fn]
+			// the functions a property is anchored in, and those under a contract tagged with it, are verified
+			// against the contracts of the Copy methods they call (a copy that equals its original and shares
+			// nothing mutable with it): establishing those contracts is part of the property's proof
+			if o.Family == "COPY" && r.copyFns[o.Fn] {
+				anchored = true
+			}
+			// callers are verified under the default frame of their callees ("a call writes nothing that
+			// existed before it"): the FRAME obligations of every hcl-lang function the property's functions
+			// call, directly or indirectly, are what that assumption rests on
+			if o.Family == "FRAME" && r.frameFns[o.Fn] {
+				anchored = true
+			}
 			if !hasProp(o, r.prop) && !anchored {
 				continue
 			}
@@ -258,6 +338,17 @@ func (r *checkRun) writeBaseline() int {
 		b.AllFunctions = append(b.AllFunctions, shortName(f))
 	}
 	sort.Strings(b.AllFunctions)
+	for _, fr := range r.res {
+		if fr.enc == nil {
+			continue
+		}
+		for name, t := range fr.enc.ghostType {
+			if t != nil && fr.enc.d.sortOf(t) == "Bool" {
+				b.BoolGhosts = append(b.BoolGhosts, shortName(fr.fn)+"|"+name)
+			}
+		}
+	}
+	sort.Strings(b.BoolGhosts)
 	sort.Strings(b.Claimed)
 	sort.Strings(b.Unproved)
 	sort.Strings(b.Functions)
@@ -298,13 +389,13 @@ func famKind(n string) string {
 }
 
 type violation struct {
-	ob     *Oblig
-	reason string
-	model  string
-	replay string
+	ob        *Oblig
+	reason    string
+	model     string
+	replay    string
 	confirmed bool
 	spurious  bool
-	test   *replayTest
+	test      *replayTest
 }
 
 func (r *checkRun) decide(noEvidence bool, evidenceOut string) int {
@@ -460,6 +551,13 @@ func (r *checkRun) decide(noEvidence bool, evidenceOut string) int {
 			poisoned[o.Fn] = true
 			continue
 		}
+		if r.accumulatorGone(o) {
+			// a per-iteration clause about an accumulator (`len(x) == old(len(x)) + 1 ...`) whose loop no longer
+			// assigns x at all: the edited loop collects its results differently (a preallocated slice filled
+			// by index, a local assigned to the field afterwards), so the clause does not describe this loop
+			undecided = append(undecided, "per-iteration clause about a variable the edited loop no longer assigns (the loop accumulates differently; nothing decided for this clause): "+o.Name+" ("+o.Verdict+")")
+			continue
+		}
 		viol = append(viol, violation{ob: o, reason: "claimed obligation no longer discharges (" + o.Verdict + ")"})
 	}
 	// 2. obligations that are new with respect to the baseline. Obligation names contain source text, so
@@ -477,9 +575,17 @@ func (r *checkRun) decide(noEvidence bool, evidenceOut string) int {
 	}
 	newProvedByFn := map[string]int{}
 	newFailByFn := map[string][]*Oblig{}
+	// an obligation that was unproved on the pinned tree and is discharged now: the unproved fact it stood
+	// for (a pointer that may be nil, dereferenced several times) is now met first by another statement of the
+	// edited function - obligations are assumed once checked, so only the first one fails. It absorbs one
+	// failing successor, like an unproved obligation that disappeared.
+	rescuedByFn := map[string]int{}
 	var keys []string
 	for _, o := range obs {
 		key := o.Fn + "|" + famKind(o.Name)
+		if unprovedBase[o.Name] && !editedName(o.Name) && o.Verdict == "unsat" {
+			rescuedByFn[key]++
+		}
 		if (claimed[o.Name] || unprovedBase[o.Name]) && !editedName(o.Name) {
 			continue
 		}
@@ -503,11 +609,11 @@ func (r *checkRun) decide(noEvidence bool, evidenceOut string) int {
 	}
 	for _, key := range keys {
 		fails := newFailByFn[key]
-		lostClaimed := len(missingByFn[key]) - newProvedByFn[key] // claimed obligations without a proved successor
-		excess := len(fails) - missingUnprovedByFn[key]           // failing successors not explained by old unproved ones
+		lostClaimed := len(missingByFn[key]) - newProvedByFn[key]          // claimed obligations without a proved successor
+		excess := len(fails) - missingUnprovedByFn[key] - rescuedByFn[key] // failing successors not explained by old unproved ones
 		nrep := 0
 		if os.Getenv("GOVC_DEBUG") != "" {
-			fmt.Fprintf(os.Stderr, "DEBUG group %s missingClaimed=%d newProved=%d fails=%d missingUnproved=%d\n", key, len(missingByFn[key]), newProvedByFn[key], len(fails), missingUnprovedByFn[key])
+			fmt.Fprintf(os.Stderr, "DEBUG group %s missingClaimed=%d newProved=%d fails=%d missingUnproved=%d rescued=%d\n", key, len(missingByFn[key]), newProvedByFn[key], len(fails), missingUnprovedByFn[key], rescuedByFn[key])
 		}
 		if lostClaimed > 0 && excess > 0 {
 			nrep = lostClaimed
@@ -518,6 +624,10 @@ func (r *checkRun) decide(noEvidence bool, evidenceOut string) int {
 		// refuted ones first: they carry a model
 		sort.SliceStable(fails, func(i, j int) bool { return fails[i].Verdict == "sat" && fails[j].Verdict != "sat" })
 		for i, o := range fails {
+			if r.accumulatorGone(o) {
+				undecided = append(undecided, "per-iteration clause about a variable the edited loop no longer assigns (the loop accumulates differently; nothing decided for this clause): "+o.Name+" ("+o.Verdict+")")
+				continue
+			}
 			if i < nrep {
 				old := missingByFn[key][0]
 				if len(missingByFn[key]) > i {
@@ -528,6 +638,10 @@ func (r *checkRun) decide(noEvidence bool, evidenceOut string) int {
 			}
 			if (o.Family == "POST" || o.Family == "COPY") && o.Verdict == "sat" && clauseProvedAtBase(o, base) {
 				viol = append(viol, violation{ob: o, reason: "a postcondition that was proved at every return of this function on the pinned tree is refuted at a return path of the edited function"})
+				continue
+			}
+			if o.Verdict == "sat" && excess > 0 && rootAlwaysCheckedAtBase(o, base) {
+				viol = append(viol, violation{ob: o, reason: "a pointer that is dereferenced in this function on the pinned tree, every time provably non-nil, is now dereferenced where it may be nil"})
 				continue
 			}
 			if o.Verdict == "sat" && excess > 0 && r.fullyProvedAtBase(o, base) {
@@ -582,7 +696,21 @@ func (r *checkRun) decide(noEvidence bool, evidenceOut string) int {
 		}
 	}
 	// loops were added or removed in a function whose contract attaches clauses to loops by number
+	// (if the contract only has per-iteration clauses - which are checked, never assumed - nothing the proof
+	// rests on is lost: only those clauses, now possibly attached to another loop, are left undecided)
+	hasLoopInv := map[string]bool{}
+	for _, fr := range r.res {
+		if fr.enc != nil && fr.enc.topFrame != nil && fr.enc.topFrame.contract != nil && len(fr.enc.topFrame.contract.LoopInv) > 0 {
+			hasLoopInv[shortName(fr.fn)] = true
+		}
+	}
+	iterOnlyFn := map[string]bool{}
 	for fn, n := range r.loopShape() {
+		if bn, ok := base.LoopShape[fn]; ok && bn != n && n > 0 && !hasLoopInv[fn] {
+			iterOnlyFn[fn] = true
+			undecided = append(undecided, fmt.Sprintf("per-iteration clauses do not bind: %s had %d loops on the pinned tree and has %d now; its loop clauses are numbered", fn, bn, n))
+			continue
+		}
 		if bn, ok := base.LoopShape[fn]; ok && bn != n && n > 0 {
 			unboundFn[fn] = true
 			undecided = append(undecided, fmt.Sprintf("contract does not bind: %s had %d loops on the pinned tree and has %d now; its loop clauses are numbered", fn, bn, n))
@@ -624,6 +752,17 @@ func (r *checkRun) decide(noEvidence bool, evidenceOut string) int {
 				}
 			}
 		}
+	}
+	if len(iterOnlyFn) > 0 {
+		var keep []violation
+		for _, v := range viol {
+			if iterOnlyFn[v.ob.Fn] && v.ob.Family == "POST" && strings.Contains(v.ob.Name, "#POST:iter:") {
+				undecided = append(undecided, "per-iteration clause of a function whose loops were renumbered: "+v.ob.Name+" ("+v.ob.Verdict+")")
+				continue
+			}
+			keep = append(keep, v)
+		}
+		viol = keep
 	}
 	if len(unboundFn) > 0 {
 		var keep []violation
@@ -827,17 +966,17 @@ func (r *checkRun) writeReplay(v *violation, i int) string {
 	name := fmt.Sprintf("%s_%d.json", r.prop, i)
 	p := filepath.Join(r.root, "replays", name)
 	rec := map[string]interface{}{
-		"property":   r.prop,
-		"obligation": v.ob.Name,
-		"family":     v.ob.Family,
-		"function":   v.ob.Fn,
-		"reason":     v.reason,
-		"verdict":    v.ob.Verdict,
-		"solver":     v.ob.Solver,
-		"source":     r.w.prog.Fset.Position(v.ob.pos).String(),
+		"property":                 r.prop,
+		"obligation":               v.ob.Name,
+		"family":                   v.ob.Family,
+		"function":                 v.ob.Fn,
+		"reason":                   v.reason,
+		"verdict":                  v.ob.Verdict,
+		"solver":                   v.ob.Solver,
+		"source":                   r.w.prog.Fset.Position(v.ob.pos).String(),
 		"condition_that_must_hold": v.ob.cond,
-		"solver_output": v.model,
-		"replayed_on_real_code": v.confirmed,
+		"solver_output":            v.model,
+		"replayed_on_real_code":    v.confirmed,
 	}
 	if v.test != nil {
 		rec["replay_test"] = v.test
@@ -942,25 +1081,25 @@ func (r *checkRun) writeEvidence(out string, obs []*Oblig, nob, discharged int, 
 		unsup = unsup[:50]
 	}
 	cov := map[string]interface{}{
-		"obligations":  nob,
-		"discharged":   discharged,
-		"checker_cmd":  fmt.Sprintf("bin/govc check -p %s -tier %s (per obligation: z3-new 5.1.0, then z3 4.8.12 and cvc5 1.0.3 on anything not decided)", r.prop, r.tier),
-		"trusted_base": tb,
-		"functions_with_obligations": len(fnSet),
+		"obligations":                       nob,
+		"discharged":                        discharged,
+		"checker_cmd":                       fmt.Sprintf("bin/govc check -p %s -tier %s (per obligation: z3-new 5.1.0, then z3 4.8.12 and cvc5 1.0.3 on anything not decided)", r.prop, r.tier),
+		"trusted_base":                      tb,
+		"functions_with_obligations":        len(fnSet),
 		"functions_under_explicit_contract": ctr,
-		"generated_total": len(obs),
-		"syntactic_discharges": synt,
-		"by_backend": byBackend,
-		"solver_time_s": float64(solverMs) / 1000.0,
-		"unproved_not_claimed": unproved - nviol,
-		"unproved_not_claimed_names": unprovedNames,
-		"undecided": undecided,
-		"vacuity": vac,
-		"known_findings": knownIDs,
-		"baseline_claimed": len(base.Claimed),
-		"out_of_subset_notes": unsup,
-		"samples": samples,
-		"exhaustive": false,
+		"generated_total":                   len(obs),
+		"syntactic_discharges":              synt,
+		"by_backend":                        byBackend,
+		"solver_time_s":                     float64(solverMs) / 1000.0,
+		"unproved_not_claimed":              unproved - nviol,
+		"unproved_not_claimed_names":        unprovedNames,
+		"undecided":                         undecided,
+		"vacuity":                           vac,
+		"known_findings":                    knownIDs,
+		"baseline_claimed":                  len(base.Claimed),
+		"out_of_subset_notes":               unsup,
+		"samples":                           samples,
+		"exhaustive":                        false,
 	}
 	if r.tier == "thorough" {
 		asked, agree := 0, 0
@@ -995,7 +1134,7 @@ func (r *checkRun) writeEvidence(out string, obs []*Oblig, nob, discharged int, 
 	}
 	ev := map[string]interface{}{
 		"property_id": r.prop, "tier": r.tier, "seed": r.seed, "level": "proof",
-		"coverage": cov,
+		"coverage":    cov,
 		"assumptions": tb,
 		"wall_s":      time.Since(r.t0).Seconds(),
 		"violations":  nviol,
@@ -1115,7 +1254,6 @@ func relevantFuncs(w *World, spec *Specs, prop string) []*ssa.Function {
 	return out
 }
 
-
 func isBindFailure(be string) bool {
 	return strings.Contains(be, "unknown identifier") || strings.Contains(be, "no field") || strings.Contains(be, "no head value")
 }
@@ -1135,7 +1273,6 @@ func (r *checkRun) bindErrors() []string {
 	sort.Strings(out)
 	return out
 }
-
 
 // breaksProof: a missing assumption (an invariant that does not bind to an existing loop) can make other
 // obligations of the function fail for no semantic reason; a missing assertion, ghost or a clause of a loop
@@ -1161,7 +1298,6 @@ func (r *checkRun) loopShape() map[string]int {
 	}
 	return out
 }
-
 
 // anchorFunctions: the functions defined in the files properties.jsonl anchors the property in (for the
 // properties decided by tagged contracts; the global ones cover every function anyway).
@@ -1206,7 +1342,6 @@ func anchorFunctions(w *World, root, prop string) map[string]bool {
 	return out
 }
 
-
 func hasTag(o *Oblig, t string) bool {
 	for _, x := range o.tags {
 		if x == t {
@@ -1214,4 +1349,232 @@ func hasTag(o *Oblig, t string) bool {
 		}
 	}
 	return false
+}
+
+// copyDeps: the Copy methods of schema and lang that the property's functions (anchor files, contracts tagged
+// with the property) call, directly or through other Copy methods; an interface call of Copy stands for every
+// implementation.
+func copyDeps(w *World, spec *Specs, prop string, anchorFns map[string]bool) map[string]bool {
+	out := map[string]bool{}
+	switch prop {
+	case "C01", "C03", "C04", "C05", "C17":
+		return out
+	}
+	var work []*ssa.Function
+	for _, f := range w.funcs {
+		if anchorFns[shortName(f)] || contractHasTag(spec.contractFor(f), prop, false) {
+			work = append(work, f)
+		}
+	}
+	seen := map[*ssa.Function]bool{}
+	var copies []*ssa.Function
+	for _, f := range w.funcs {
+		if isCopyMethod(w, f) {
+			copies = append(copies, f)
+		}
+	}
+	for len(work) > 0 {
+		f := work[len(work)-1]
+		work = work[:len(work)-1]
+		if seen[f] {
+			continue
+		}
+		seen[f] = true
+		for _, b := range f.Blocks {
+			for _, in := range b.Instrs {
+				c, ok := in.(ssa.CallInstruction)
+				if !ok {
+					continue
+				}
+				cc := c.Common()
+				if cc.IsInvoke() {
+					if cc.Method.Name() != "Copy" {
+						continue
+					}
+					it, _ := cc.Value.Type().Underlying().(*types.Interface)
+					if it == nil {
+						continue
+					}
+					for _, g := range copies {
+						rt := g.Signature.Recv().Type()
+						if types.Implements(rt, it) && !out[shortName(g)] {
+							out[shortName(g)] = true
+							work = append(work, g)
+						}
+					}
+				} else if g := cc.StaticCallee(); g != nil && isCopyMethod(w, g) && !out[shortName(g)] {
+					out[shortName(g)] = true
+					work = append(work, g)
+				}
+			}
+		}
+	}
+	return out
+}
+
+var iterNameRe = regexp.MustCompile(`#POST:iter:loop (\d+) iter (.*)#\d+$`)
+
+// accumulatorGone: o is a per-iteration clause that mentions old(len(X)) / old(X), and loop N of the
+// (edited) function contains no assignment to any such X any more.
+func (r *checkRun) accumulatorGone(o *Oblig) bool {
+	m := iterNameRe.FindStringSubmatch(o.Name)
+	if m == nil {
+		return false
+	}
+	n, _ := strconv.Atoi(m[1])
+	ex, err := parser.ParseExpr(m[2])
+	if err != nil {
+		return false
+	}
+	var fn *ssa.Function
+	for _, f := range r.w.funcs {
+		if shortName(f) == o.Fn {
+			fn = f
+		}
+	}
+	if fn == nil || fn.Syntax() == nil {
+		return false
+	}
+	accs := map[string]bool{}
+	ast.Inspect(ex, func(x ast.Node) bool {
+		c, ok := x.(*ast.CallExpr)
+		if !ok {
+			return true
+		}
+		if id, ok := c.Fun.(*ast.Ident); ok && id.Name == "old" && len(c.Args) == 1 {
+			a := c.Args[0]
+			if c2, ok := a.(*ast.CallExpr); ok {
+				if id2, ok := c2.Fun.(*ast.Ident); ok && (id2.Name == "len" || id2.Name == "cap") && len(c2.Args) == 1 {
+					a = c2.Args[0]
+				}
+			}
+			accs[types.ExprString(a)] = true
+		}
+		return true
+	})
+	if len(accs) == 0 {
+		return false
+	}
+	var body *ast.BlockStmt
+	switch d := fn.Syntax().(type) {
+	case *ast.FuncDecl:
+		body = d.Body
+	case *ast.FuncLit:
+		body = d.Body
+	}
+	if body == nil {
+		return false
+	}
+	var loops []ast.Stmt
+	ast.Inspect(body, func(x ast.Node) bool {
+		switch x.(type) {
+		case *ast.FuncLit:
+			return false
+		case *ast.ForStmt, *ast.RangeStmt:
+			loops = append(loops, x.(ast.Stmt))
+		}
+		return true
+	})
+	if n < 1 || len(loops) == 0 {
+		return false
+	}
+	// (the verifier's loop ordinals follow SSA positions, which need not be the order of the for statements
+	// in the source: the variable counts as still accumulated if ANY loop of the function assigns it)
+	assigned := false
+	for _, lp := range loops {
+		ast.Inspect(lp, func(x ast.Node) bool {
+			switch st := x.(type) {
+			case *ast.AssignStmt:
+				for _, l := range st.Lhs {
+					if accs[types.ExprString(l)] {
+						assigned = true
+					}
+				}
+			case *ast.IncDecStmt:
+				if accs[types.ExprString(st.X)] {
+					assigned = true
+				}
+			}
+			return true
+		})
+	}
+	return !assigned
+}
+
+var nilRootRe = regexp.MustCompile(`#SAFE:nil:\*?([A-Za-z_][A-Za-z_0-9]*)`)
+
+// rootAlwaysCheckedAtBase: o is a nil-dereference obligation on variable v (the leading identifier of the
+// dereferenced expression); on the pinned tree this function dereferences v, and every such obligation
+// was discharged (none was left unproved): v was guarded or known to be non-nil wherever it was used.
+func rootAlwaysCheckedAtBase(o *Oblig, base Baseline) bool {
+	m := nilRootRe.FindStringSubmatch(o.Name)
+	if m == nil || !strings.HasPrefix(o.Name, o.Fn+"#SAFE:nil:") {
+		return false
+	}
+	root := m[1]
+	same := func(n string) bool {
+		if !strings.HasPrefix(n, o.Fn+"#SAFE:nil:") {
+			return false
+		}
+		mm := nilRootRe.FindStringSubmatch(n)
+		return mm != nil && mm[1] == root
+	}
+	for _, n := range base.Unproved {
+		if same(n) {
+			return false
+		}
+	}
+	for _, n := range base.Claimed {
+		if same(n) {
+			return true
+		}
+	}
+	return false
+}
+
+// frameDeps: the hcl-lang functions statically reachable (call graph over static callees, closures included)
+// from the functions a property is anchored in or that carry a contract tagged with it.
+func frameDeps(w *World, spec *Specs, prop string, anchorFns map[string]bool) map[string]bool {
+	out := map[string]bool{}
+	switch prop {
+	case "C01", "C03", "C04", "C05", "C17":
+		return out
+	}
+	var work []*ssa.Function
+	for _, f := range w.funcs {
+		if anchorFns[shortName(f)] || contractHasTag(spec.contractFor(f), prop, false) {
+			work = append(work, f)
+		}
+	}
+	mine := map[*ssa.Function]bool{}
+	for _, f := range w.funcs {
+		mine[f] = true
+	}
+	seen := map[*ssa.Function]bool{}
+	for len(work) > 0 {
+		f := work[len(work)-1]
+		work = work[:len(work)-1]
+		if seen[f] {
+			continue
+		}
+		seen[f] = true
+		out[shortName(f)] = true
+		for _, af := range f.AnonFuncs {
+			if mine[af] {
+				work = append(work, af)
+			}
+		}
+		for _, b := range f.Blocks {
+			for _, in := range b.Instrs {
+				c, ok := in.(ssa.CallInstruction)
+				if !ok {
+					continue
+				}
+				if g := c.Common().StaticCallee(); g != nil && mine[g] && !seen[g] {
+					work = append(work, g)
+				}
+			}
+		}
+	}
+	return out
 }
